@@ -242,6 +242,54 @@ def layering(f0: bool, m0: bool, f1: bool, m1: bool, f2: bool, m2: bool,
     return H.done(got == exp)
 
 
+# ------------------------------------------------------------------ the real specialization relation of PythonType
+def _spec_types():
+    import collections.abc as abc
+    import numbers
+
+    class Shape:
+        pass
+
+    class Circle:
+        pass
+    import abc as _abc
+    ShapeABC = _abc.ABCMeta('ShapeABC', (), {})
+    ShapeABC.register(Circle)
+
+    class Sub(Circle):
+        pass
+    return [int, bool, object, str, numbers.Number, numbers.Integral, float, tuple, list, abc.Sequence, abc.Iterable,
+            abc.Mapping, dict, ShapeABC, Circle, Sub, Shape, (int, str)]
+
+
+SPEC_TYPES = _spec_types()
+SPEC_BOX = [(i,) for i in range(len(SPEC_TYPES))]
+
+
+def spec_relation(i: int, j: int, via_smart: bool) -> bool:
+    """
+    pre: 0 <= i < len(SPEC_TYPES) and 0 <= j < len(SPEC_TYPES)
+    post: _
+    """
+    # "more specific" between declared python types is the strict subclass relation (virtual subclasses included);
+    # tuples of types and non-PythonType smart types are never comparable
+    from yaql.language import yaqltypes
+    a, b = SPEC_TYPES[SPEC_BOX[i][0]], SPEC_TYPES[SPEC_BOX[j][0]]
+    with H.NoTracing():
+        ta = yaqltypes.PythonType(a)
+        tb = yaqltypes.Lambda() if via_smart else yaqltypes.PythonType(b)
+        try:
+            got = ta.is_specialization_of(tb)
+        except Exception as e:
+            got = 'raised %s' % type(e).__name__
+        if via_smart or isinstance(a, tuple) or isinstance(b, tuple):
+            exp = False
+        else:
+            exp = issubclass(a, b) and not issubclass(b, a)
+        ok = (got == exp) and (via_smart or not (got is True and tb.is_specialization_of(ta)))
+    return H.done(ok)
+
+
 # ------------------------------------------------------------------ keyword names under a naming convention
 def _alias_context():
     import yaql
@@ -328,8 +376,19 @@ def conditions(tier, seed):
     from props import c05_bind as B
     import random
     rnd = random.Random(seed)
-    core = [i for i, (sh, hid) in enumerate(B.CATALOGUE)
-            if sum(1 for p in sh if p[1] == 'pos') == 2 and hid in (None, 1) and sum(1 for p in sh if p[1] == 'pos' and p[2]) == 1]
+    def find(npos, nd, var, kwo, varkw, hidden):
+        for i, (sh, hid) in enumerate(B.CATALOGUE):
+            pos = [q for q in sh if q[1] == 'pos']
+            kw = [q for q in sh if q[1] == 'kwonly']
+            if (len(pos) == npos and sum(1 for q in pos if q[2]) == nd and any(q[1] == 'var' for q in sh) == var
+                    and ((kw[0][2] if kw else None) == kwo) and any(q[1] == 'varkw' for q in sh) == varkw and hid == hidden):
+                return i
+        raise LookupError((npos, nd, var, kwo, varkw, hidden))
+    # feature-covering core: defaulted positional + defaulted keyword-only, hidden parameter first/middle/last, *args with a
+    # required keyword-only, **kwargs, all-defaulted, no positional at all
+    core = [find(2, 1, False, True, False, None), find(2, 1, False, True, False, 1), find(2, 1, True, False, True, 0),
+            find(3, 2, False, None, True, 2), find(1, 0, True, True, False, None), find(2, 2, False, None, False, 2),
+            find(0, 0, True, False, True, 0), find(3, 0, False, None, False, 1)]
     rest = [i for i in range(len(B.CATALOGUE)) if i not in core]
     rnd.shuffle(rest)
     chosen = core[:8] + rest[:(4 if tier == 'quick' else 172)]
@@ -345,6 +404,9 @@ def conditions(tier, seed):
     if 'C05/empty-slot-in-varargs-leaks-marker' in KNOWN:
         out.append({'name': 'probe[empty-slot-in-varargs]', 'func': 'probe_skip_in_varargs', 'timeout': 60, 'kind': 'probe',
                     'param': {'probe_key': 'C05/empty-slot-in-varargs-leaks-marker'}, 'bounds': 'f(1,,3) and f(1,2,) against def f(p0, *rest)'})
+    out.append({'name': 'spec_relation', 'func': 'spec_relation', 'timeout': t,
+                'bounds': 'PythonType.is_specialization_of on every ordered pair of %d declared types (builtins, ABCs with '
+                          'registered/virtual subclasses, a tuple of types) and against a non-python smart type' % len(SPEC_TYPES)})
     out.append({'name': 'alias_kw', 'func': 'alias_kw', 'timeout': t,
                 'bounds': 'functions registered under the CamelCase convention with multi-word / trailing-underscore parameter '
                           'names, called positionally and by the convention-translated keyword; value int or str(len<=1); lazy '
@@ -396,6 +458,12 @@ def replay(cond, args):
         return {'reproduced': True, 'key': 'C05/binding/%s' % src,
                 'what': '%s called with positional %r keywords %r: yaql binds %r, python-signature binding gives %r' % (
                     src, shown, ckw, got, exp)}
+    elif f == 'spec_relation':
+        ok = spec_relation(**a)
+        return {'reproduced': not ok, 'key': 'C05/python-type-specialization',
+                'what': 'PythonType(%r).is_specialization_of(PythonType(%r)) differs from the strict subclass relation (or raises); '
+                        'two overloads declared with these types that both match a call make resolution fail with a '
+                        'non-resolution error' % (SPEC_TYPES[a['i']], SPEC_TYPES[a['j']])}
     elif f == 'alias_kw':
         ok = alias_kw(**a)
         return {'reproduced': not ok, 'key': 'C05/keyword-alias-binding',
